@@ -263,6 +263,9 @@ LEGS = {
     "C09": lambda q, seed: [
         ("G-pos", dict(CFGS="U_C09", SYMS="Syms_C09", MAXLEN=4, OPS='{"nextpos", "setoffset"}', MAXDEPTH=4 if q else 5,
                        DRAIN="FALSE", BACKONLY="TRUE", ALLPOS="TRUE", MOD=24 if q else 6, SEED=seed)),
+        # plain iterators queried through PositionProvider::position: the reset goes through all three public paths
+        ("G-pos-plain", dict(CFGS="U_C09", SYMS="Syms_C09", MAXLEN=4, OPS='{"next", "setoffset"}', MAXDEPTH=4 if q else 5,
+                             DRAIN="FALSE", BACKONLY="TRUE", ALLPOS="TRUE", MOD=48 if q else 12, SEED=seed)),
         ("G-scanpos", dict(CFGS="U_C09", SYMS="Syms_C09", MAXLEN=5 if q else 6, OPS='{"nextpos"}', MAXDEPTH=9, DRAIN="TRUE",
                            ALLPOS="TRUE", MOD=8 if q else 2, SEED=seed)),
     ],
